@@ -351,7 +351,175 @@ theorem storeModule_spec (s : State) :
       · exact Or.inl h1
       · exact Or.inr ⟨midx, v, rfl, h2⟩
 
+/-! ### ghost counters along executions -/
+
+structure Ghost where
+  /-- STOREMODULE m instructions executed -/
+  stores : Nat → Nat := fun _ => 0
+  /-- LOADMODULE m instructions that found the entry nil (each one starts a load of m) -/
+  misses : Nat → Nat := fun _ => 0
+
+def Ghost.bumpStore (g : Ghost) (i : Nat) : Ghost := { g with stores := fun m => if m = i then g.stores m + 1 else g.stores m }
+def Ghost.bumpMiss (g : Ghost) (i : Nat) : Ghost := { g with misses := fun m => if m = i then g.misses m + 1 else g.misses m }
+
+/-- LOADMODULE would find entry `midx` nil -/
+def isMiss (s : State) (midx : Nat) : Bool :=
+  match s.modules[midx]? with
+  | some .nil => true
+  | _ => false
+
+/-- one instruction with ghost bookkeeping; the state component is that of `step` (`gstep_state`) -/
+def gstep (F : FloatOps) (gs : Ghost × State) : Ghost × State :=
+  match exec fetchOp gs.2 with
+  | (.ok op, s1) =>
+    if op = OpStoreModule then
+      match exec (opnd2 1) s1 with
+      | (.ok midx, _) => (gs.1.bumpStore midx, (exec execStoreModule s1).2)
+      | (.error _, _) => (gs.1, (exec execStoreModule s1).2)
+    else if op = OpLoadModule then
+      match exec (opnd2 3) s1 with
+      | (.ok midx, _) => (if isMiss s1 midx then gs.1.bumpMiss midx else gs.1, (exec execLoadModule s1).2)
+      | (.error _, _) => (gs.1, (exec execLoadModule s1).2)
+    else (gs.1, (exec (dispatch F op) s1).2)
+  | (.error _, s1) => (gs.1, s1)
+
+theorem gstep_state (F : FloatOps) (g : Ghost) (s : State) : (gstep F (g, s)).2 = (exec (step F) s).2 := by
+  rw [exec_step]
+  unfold gstep
+  cases h : exec fetchOp s with
+  | mk r s1 =>
+    cases r with
+    | error e => rfl
+    | ok op =>
+      simp only
+      by_cases h1 : op = OpStoreModule
+      · subst h1
+        simp only [↓reduceIte]
+        have : dispatch F OpStoreModule = execStoreModule := rfl
+        rw [this]
+        split <;> rfl
+      · by_cases h2 : op = OpLoadModule
+        · subst h2
+          simp only [h1, ↓reduceIte]
+          have : dispatch F OpLoadModule = execLoadModule := rfl
+          rw [this]
+          split <;> rfl
+        · simp only [h1, h2, ↓reduceIte]
+
+/-- executions: any number of instructions -/
+inductive Reach (F : FloatOps) : Ghost × State → Ghost × State → Prop
+  | refl (a) : Reach F a a
+  | step {a b} : Reach F a b → Reach F a (gstep F b)
+
+/-- a cache entry that is not nil has an executed STOREMODULE behind it -/
+def GInv (g : Ghost) (s : State) : Prop := ∀ m v, s.modules[m]? = some v → v ≠ .nil → 0 < g.stores m
+
+theorem gstep_inv (F : FloatOps) (g : Ghost) (s : State) (hinv : GInv g s) :
+    GInv (gstep F (g, s)).1 (gstep F (g, s)).2 := by
+  unfold gstep
+  have hf := pm_fetchOp.h s
+  cases h : exec fetchOp s with
+  | mk r s1 =>
+    rw [h] at hf
+    simp only at hf
+    cases r with
+    | error e => simp only; intro m v; rw [hf]; exact hinv m v
+    | ok op =>
+      simp only
+      by_cases h1 : op = OpStoreModule
+      · subst h1
+        simp only [↓reduceIte]
+        rcases storeModule_spec s1 with hs | ⟨midx, v, ho, hs⟩
+        · split
+          · intro m v hm hv
+            rw [hs, hf] at hm
+            have := hinv m v hm hv
+            simp only [Ghost.bumpStore]; split <;> omega
+          · intro m v hm hv
+            rw [hs, hf] at hm
+            exact hinv m v hm hv
+        · rw [ho]
+          simp only
+          intro m w hm hv
+          rw [hs, hf] at hm
+          simp only [Ghost.bumpStore]
+          by_cases e : m = midx
+          · simp [e]
+          · simp only [e, ↓reduceIte]
+            have : (s.modules.set! midx v)[m]? = s.modules[m]? := by
+              simp [Array.set!, Array.getElem?_setIfInBounds]; intro h; exact absurd h.symm e
+            rw [this] at hm
+            exact hinv m w hm hv
+      · by_cases h2 : op = OpLoadModule
+        · subst h2
+          simp only [h1, ↓reduceIte]
+          have hl := pm_execLoadModule.h s1
+          split
+          · intro m v hm hv
+            rw [hl, hf] at hm
+            have := hinv m v hm hv
+            split
+            · simpa [Ghost.bumpMiss] using this
+            · exact this
+          · intro m v hm hv
+            rw [hl, hf] at hm
+            exact hinv m v hm hv
+        · simp only [h1, h2, ↓reduceIte]
+          intro m v hm hv
+          rw [(pm_dispatch F op h1).h s1, hf] at hm
+          exact hinv m v hm hv
+
+theorem reach_inv (F : FloatOps) {a b : Ghost × State} (hr : Reach F a b) (hinv : GInv a.1 a.2) : GInv b.1 b.2 := by
+  induction hr with
+  | refl => exact hinv
+  | step _ ih => exact gstep_inv F _ _ ih
+
+/-- counters only grow -/
+theorem reach_mono (F : FloatOps) {a b : Ghost × State} (hr : Reach F a b) : ∀ m, a.1.stores m ≤ b.1.stores m := by
+  induction hr with
+  | refl => intro m; exact Nat.le_refl _
+  | step _ ih =>
+    intro m
+    refine Nat.le_trans (ih m) ?_
+    unfold gstep
+    repeat' split
+    all_goals first | exact Nat.le_refl _ | (simp only [Ghost.bumpStore, Ghost.bumpMiss]; split <;> omega) | (simp only [Ghost.bumpMiss]; exact Nat.le_refl _)
+
 /-! ### prologue -/
+
+/-- `m` keeps every existing cache entry (it may append) -/
+structure PG {α} (m : M α) : Prop where
+  h : ∀ s j, j < s.modules.size → (exec m s).2.modules[j]? = s.modules[j]?
+
+theorem pg_bind {α β} {m : M α} {f : α → M β} (hm : PM m) (hf : ∀ a, PG (f a)) : PG (m >>= f) := by
+  constructor; intro s j hj
+  rw [exec_bind]
+  have := hm.h s
+  cases h : exec m s with
+  | mk r s' =>
+    rw [h] at this
+    simp only at this
+    cases r with
+    | ok a => simp only; rw [← this] at hj ⊢; exact (hf a).h s' j hj
+    | error e => simp only; rw [this]
+
+@[pm_simps] theorem pm_initLocals (args : List V) : PM (initLocals args) := by unfold initLocals; pm
+@[pm_simps] theorem pm_initCurrentFrame : PM initCurrentFrame := by unfold initCurrentFrame; pm
+
+theorem pg_prologue (g : V) (args : List V) : PG (prologue g args) := by
+  unfold prologue
+  apply pg_bind (by pm); intro _
+  apply pg_bind (by pm); intro _
+  apply pg_bind (by pm); intro _
+  apply pg_bind (by pm); intro _
+  apply pg_bind (by pm); intro _
+  apply pg_bind (by pm); intro _
+  apply pg_bind (by pm); intro _
+  apply pg_bind (by pm); intro _
+  constructor; intro s j hj
+  show (s.modules ++ Array.replicate (s.numModules - s.modules.size) V.nil)[j]? = s.modules[j]?
+  rw [Array.getElem?_append_left hj]
+
 
 theorem set_size (a : Array V) (i : Nat) (v : V) : (a.set! i v).size = a.size := by simp
 
